@@ -34,22 +34,25 @@ def inputs_for(m, seed, n=3):
     return [{k: (r2.integers(0, 5, size=dd['shape']).astype(np.int32) if dd['dtype'] == np.int32 else (r2.normal(size=dd['shape']) * r2.choice([0.3, 1, 5])).astype(np.float32)) for k, dd in rr.get_input_details().items()} for _ in range(n)]
 T = qtyping.TensorQuantizationConfig; C = qtyping.OpQuantizationConfig; GR = qtyping.QuantGranularity; CP = qtyping.ComputePrecision
 def fp16_recipe(qt): qt.update_quantization_recipe('.*', qtyping.TFLOperationName.ALL_SUPPORTED, C(None, T(16, True, dtype=qtyping.TensorDataType.FLOAT), CP.FLOAT, True), algorithm_manager.AlgorithmName.FLOAT_CASTING)
-stats = collections.Counter(); worst = 0
-for seed in range(400):
-    try: m = rand_model(seed); ins = inputs_for(m, seed); iu.invoke_interpreter_signature(iu.create_tfl_interpreter(m), ins[0])
-    except Exception: continue
-    for rec in ['default_af32w8float_recipe.json', 'default_af32w4float_recipe.json', 'fp16']:
-        qt = quantizer.Quantizer(m) if rec == 'fp16' else quantizer.Quantizer(m, R + rec)
-        if rec == 'fp16': fp16_recipe(qt)
-        try: qm = bytes(qt.quantize().quantized_model)
-        except Exception as e: stats['quant_exc'] += 1; continue
-        ref, nrep = refmodel(m, qm)
-        if nrep == 0: stats['trivial'] += 1; continue
-        i1 = iu.create_tfl_interpreter(qm); i2 = iu.create_tfl_interpreter(ref)
-        for x in ins:
-            a = iu.invoke_interpreter_signature(i1, x); b = iu.invoke_interpreter_signature(i2, x)
-            for k in a:
-                err = float(np.max(np.abs(a[k].astype(np.float64) - b[k]))) / max(1.0, float(np.max(np.abs(b[k])))); worst = max(worst, err)
-                stats['out_checked'] += 1
-                if err > 1e-4: stats['MISMATCH'] += 1; print('mismatch', seed, rec, k, err)
-print(dict(stats), 'worst rel err', worst)
+def main():
+    global_worst = 0
+    stats = collections.Counter(); worst = 0
+    for seed in range(400):
+        try: m = rand_model(seed); ins = inputs_for(m, seed); iu.invoke_interpreter_signature(iu.create_tfl_interpreter(m), ins[0])
+        except Exception: continue
+        for rec in ['default_af32w8float_recipe.json', 'default_af32w4float_recipe.json', 'fp16']:
+            qt = quantizer.Quantizer(m) if rec == 'fp16' else quantizer.Quantizer(m, R + rec)
+            if rec == 'fp16': fp16_recipe(qt)
+            try: qm = bytes(qt.quantize().quantized_model)
+            except Exception as e: stats['quant_exc'] += 1; continue
+            ref, nrep = refmodel(m, qm)
+            if nrep == 0: stats['trivial'] += 1; continue
+            i1 = iu.create_tfl_interpreter(qm); i2 = iu.create_tfl_interpreter(ref)
+            for x in ins:
+                a = iu.invoke_interpreter_signature(i1, x); b = iu.invoke_interpreter_signature(i2, x)
+                for k in a:
+                    err = float(np.max(np.abs(a[k].astype(np.float64) - b[k]))) / max(1.0, float(np.max(np.abs(b[k])))); worst = max(worst, err)
+                    stats['out_checked'] += 1
+                    if err > 1e-4: stats['MISMATCH'] += 1; print('mismatch', seed, rec, k, err)
+    print(dict(stats), 'worst rel err', worst)
+if __name__ == '__main__': main()
